@@ -26,7 +26,8 @@ RULE = ("E1: ordered pairs (L, R) from the %s-document corpus = every "
         "family x family under 12 policies rotating through all 180 "
         "hash x array x aoh x set combinations, plus a seed-offset stride of "
         "all pairs under all 180; a per-path rule (left/right) or identity "
-        "key override on 1 case in 4. Oracle: reference merge semantics in "
+        "key override on 1 case in 4 (half of those again with upper-case "
+        "keys A/B). Oracle: reference merge semantics in "
         "validity form (key-set union, per-key recursion, relative key "
         "orders, prefix/append rules for unique arrays) written from the "
         "statement and --help texts; structurally impossible merges must "
@@ -264,6 +265,19 @@ def run_shard(shard):
     fam, base = corpus()
     if shard["kind"] == "fam":
         texts = [gdocs.emit(s) for s in fam]
+        # the same family with upper-case keys: rule and identity-key paths
+        # are case-sensitive like the keys they name
+        up = {"a": "A", "b": "B"}
+        pairs = [[k, v] for k, v in up.items()]
+        utexts = [gdocs.emit(gdocs.remap_keys(s, pairs)) for s in fam]
+
+        def upper(pol):
+            q = mm.Policy(pol.hashes, pol.arrays, pol.aoh, pol.sets)
+            q.rules = {tuple(up.get(x, x) for x in k): v
+                       for k, v in pol.rules.items()}
+            q.keys = {tuple(up.get(x, x) for x in k): up.get(v, v)
+                      for k, v in pol.keys.items()}
+            return q
         n = 0
         for li, lt in enumerate(texts):
             for ri, rt in enumerate(texts):
@@ -276,6 +290,9 @@ def run_shard(shard):
                 for j in range(shard["npol"]):
                     pol = policy_for(n * 7 + j * 31 + shard["offset"])
                     check_merge(lt, rt, pol, res)
+                    if (pol.rules or pol.keys) and (n + j) % 2 == 0:
+                        check_merge(utexts[li], utexts[ri], upper(pol), res)
+                        res.label("upper-case-keys-with-rules")
     else:
         allspecs = fam + base
         total = len(allspecs)
